@@ -39,7 +39,9 @@ KINDS = ["bitflip", "truncate", "extend", "drop", "dup", "swap", "replay_old",
          "reflect", "inject_plain", "hdr_type", "hdr_version", "hdr_length",
          "cross_epoch", "extend_front", "byz_inner"]
 WEIGHTED = ["bitflip"] * 6 + KINDS
-PROBES = KINDS + ["tls13_keyupdate_epoch", "etm", "aead", "stream", "null"]
+PROBES = KINDS + ["tls13_keyupdate_epoch", "etm", "aead", "stream", "null",
+                  "hs_epoch", "hs_epoch_inject", "hs_epoch_bitflip",
+                  "hs_epoch_truncated_copy", "hs_epoch_reflect"]
 COMPONENTS_REAL = ["tlslite record layer (protect/unprotect paths of every "
                    "suite class), TLSRecordLayer._getMsg error mapping"]
 COMPONENTS_STUB = ["socket", "os.urandom", "clock", "network (hostile wire)"]
@@ -75,6 +77,12 @@ def plan(tier, base_seed):
     n = {"quick": 300, "thorough": 400000}[tier]
     for k in range(n):
         jobs.append({"seed": base_seed * 1000003 + 500000 + k})
+    # forgeries inside the protected part of the handshake, every cell
+    for r in range({"quick": 1, "thorough": 20}[tier]):
+        for c in cells:
+            jobs.append({"seed": base_seed * 1000003 + 700000 + i, "cell": c,
+                         "fam": "hs_epoch"})
+            i += 1
     for j in jobs[:3]:
         j["keep"] = True
     return jobs
@@ -92,6 +100,108 @@ def build(seed, sc, chooser, tampers):
     for w in "cs":
         tp[w][0].keep_plain = True
     return sim, pair, m, tp
+
+
+def run_hs_epoch(job, ch, seed, sc, suite, ver, etm, dirn, S, R, m0, hs_n):
+    """Forgeries aimed at the first PROTECTED record of the handshake in one
+    direction (TLS 1.3: first record under handshake keys; <= 1.2: the
+    Finished right after ChangeCipherSpec): foreign application_data-typed
+    record in front of it, bit flip, truncated copy in front, record
+    reflected from the other direction.  The receiver must abort the
+    handshake with a fatal integrity / decoding alert."""
+    from tlslite.errors import TLSLocalAlert
+    lay = m0.seen[dirn]
+    n = hs_n[dirn]
+    if ver == (3, 4):
+        prot = [i for i in range(n) if lay[i][0] == 23]
+    else:
+        ccs = [i for i in range(n) if lay[i][0] == 20]
+        prot = [ccs[0] + 1] if ccs and ccs[0] + 1 < n else []
+    viol = []
+    probes = {"hs_epoch": 1}
+    if not prot:
+        return {"violations": [], "nontrivial": False, "key": "hs-none",
+                "digest": "hs-none", "faults": {}, "probes": probes,
+                "steps": 0, "order": "", "states": [],
+                "streams": ch.streams(), "inconclusive": False,
+                "sample": {"scenario": sc}}
+    tgt = prot[0]
+    k = ch.draw(4, "h.kind")
+    other = "s2c" if dirn == "c2s" else "c2s"
+    if k == 0:
+        nb = 17 + ch.draw(60, "h.len")
+        body = bytes((7 * i + 3 * nb + seed) & 0xff for i in range(nb))
+        t = {"kind": "inject_plain", "type": 23, "body": body.hex(),
+             "ver": list(lay[tgt][1])}
+        detail = "hs_epoch_inject"
+    elif k == 1:
+        t = {"kind": "bitflip", "pos": 5 + ch.draw(len(lay[tgt][2]),
+                                                  "h.pos"), "mask": 1}
+        detail = "hs_epoch_bitflip"
+    elif k == 2:
+        b = lay[tgt][2]
+        t = {"kind": "inject_plain", "type": lay[tgt][0],
+             "body": bytes(b[:max(1, len(b) - 1 - ch.draw(8, "h.cut"))]).hex(),
+             "ver": list(lay[tgt][1])}
+        detail = "hs_epoch_truncated_copy"
+    else:
+        src = [i for i in range(hs_n[other])
+               if m0.seen[other][i][0] == lay[tgt][0] and
+               (ver == (3, 4) or i > 0)]
+        if not src:
+            src = [hs_n[other] - 1]
+        t = {"kind": "reflect", "src": src[-1]}
+        detail = "hs_epoch_reflect"
+    detail += "|tls13" if ver == (3, 4) else "|legacy"
+    t["dir"] = dirn
+    t["idx"] = tgt
+    sim, pair, m, tp = build(seed, sc, ch, [t])
+    oc, os_, st = pair.handshake()
+
+    def v(rule, sig, msg):
+        viol.append({"rule": rule, "sig": sig, "msg":
+                     "%s [tamper=%s suite=%s ver=%s etm=%s dir=%s]" %
+                     (msg, json.dumps(t, sort_keys=True), suite.name, ver,
+                      etm, dirn)})
+    ro = oc if R == "c" else os_
+    rx = pair.c if R == "c" else pair.s
+    fired = bool(m.fired)
+    if fired:
+        probes[detail.split("|")[0]] = 1
+        if oc.kind == "ok" and os_.kind == "ok":
+            v("not_rejected", "%s|handshake_completed" % detail,
+              "a forged record inside the protected part of the handshake "
+              "was tolerated: both handshakes completed")
+        elif ro.kind == "ok" or st == "stuck" or ro.kind == "pending":
+            v("not_rejected", "%s|receiver_waits" % detail,
+              "the receiver did not abort after a forged record in the "
+              "protected part of the handshake (status %s, receiver %s)" %
+              (st, ro.kind))
+        elif ro.kind == "exc":
+            e = ro.exc
+            if not isinstance(e, TLSLocalAlert):
+                v("wrong_error", "%s|%s" % (detail, type(e).__name__),
+                  "forged handshake-epoch record surfaced as %r instead of "
+                  "a local fatal alert" % (e,))
+            elif e.description not in ALLOWED or e.level != 2:
+                v("wrong_alert", "%s|%s" % (detail, e.description),
+                  "alert %s level %s is not a fatal integrity/decoding "
+                  "alert" % (e.description, e.level))
+            if not rx.conn.closed:
+                v("not_closed", detail, "connection open after the forged "
+                  "record")
+    key = hashlib.sha256(json.dumps([sc, t, "hs"], sort_keys=True)
+                         .encode()).hexdigest()
+    h = hashlib.sha256()
+    h.update(bytes(pair.link.c2s.wire_log))
+    h.update(bytes(pair.link.s2c.wire_log))
+    h.update(json.dumps([x["sig"] for x in viol]).encode())
+    return {"violations": viol, "nontrivial": fired, "key": key,
+            "digest": h.hexdigest(), "faults": dict(sim.stats),
+            "probes": probes, "steps": sim.steps, "order": "",
+            "states": ["hs_epoch/%s" % detail],
+            "streams": ch.streams(), "inconclusive": False,
+            "sample": {"scenario": sc, "tamper": t}}
 
 
 def app_script(S, R, sizes, ku_at, pre):
@@ -184,6 +294,10 @@ def run(job, streams=None):
         raise RuntimeError("dry-run handshake failed: %r %r %s" %
                            (oc.exc, os_.exc, st))
     hs_n = {d: len(m0.seen[d]) for d in ("c2s", "s2c")}
+    if job.get("fam") == "hs_epoch" or (job.get("fam") is None and
+                                        ch.draw(8, "cfg.hsepoch") == 1):
+        return run_hs_epoch(job, ch, seed, sc, suite, ver, etm, dirn, S, R,
+                            m0, hs_n)
     eps0 = {"c": pair0.c, "s": pair0.s}
     st0 = sim_script.run_script(sim0, eps0, script, op_gen_factory(None))
     if st0 != "idle" or any(o.kind != "ok" for w in "cs"
@@ -287,7 +401,13 @@ def run(job, streams=None):
     if t is not None:
         t["idx"] = tgt
     # first record of a key epoch in this direction? (read seqnum == 0)
-    epoch_start = tgt == hs_n[dirn]
+    # (also the first record after a KeyUpdate of that direction)
+    ku_idx = [i for i, r in enumerate(tp0[S][0].records)
+              if i >= hs_n[dirn] and r[0] == 22]
+
+    def is_epoch_start(i):
+        return i == hs_n[dirn] or (i - 1) in ku_idx
+    epoch_start = is_epoch_start(tgt)
     detail = kind
     if kind == "inject_plain":
         detail += ":%d:%d" % (t["type"], len(t["body"]) // 2)
@@ -295,7 +415,7 @@ def run(job, streams=None):
     if need_follow and tgt == app_idx[-1] and len(app_idx) > 1:
         tgt = app_idx[-2]
         t["idx"] = tgt
-        epoch_start = tgt == hs_n[dirn]
+        epoch_start = is_epoch_start(tgt)
     if epoch_start:
         detail += "|epoch_start"
 
